@@ -54,9 +54,14 @@ def queries():
                       (c06, lambda q: q.tier == "quick" and q.name.startswith("route")),
                       (c17, lambda q: q.tier == "quick" and not q.name.endswith("-null"))):
         for q in mod.queries():
+            if "[borrowed" in (q.note or ""):
+                continue
             q2 = copy.copy(q)
             q2.name = mod.__name__.split(".")[-1] + "-" + q.name
             q2.tier = "quick" if (pick(q) and mod in (c09, c07)) else "thorough"
             q2.nowitness = q.nowitness or (q2.tier != "quick")
             qs.append(q2)
+    # error returns of the feedback handlers on malformed payloads (C12 harnesses end with the same lock assertions)
+    from check import borrow
+    qs += borrow("C12", lambda q: q.name.startswith("vendor-any") or q.name.startswith("dispatch-"))
     return qs
